@@ -1,5 +1,6 @@
 import Lean.Data.Json
 import AFModel.Comp
+import AFModel.Gate
 
 /-! Line-protocol codec shared by all property handlers. Floats travel as 16 hex digits. -/
 
@@ -19,7 +20,8 @@ def parseHex (s : String) : Option Nat :=
     | _, _ => none) (some 0)
 
 def floatOfHex (s : String) : Option Float :=
-  if s.length != 16 then none else (parseHex s).map (fun n => Float.ofBits n.toUInt64)
+  if s == "nan" then some (0.0 / 0.0)
+  else if s.length != 16 then none else (parseHex s).map (fun n => Float.ofBits n.toUInt64)
 
 def hexOfNat (n : Nat) (width : Nat) : String :=
   let rec go (n : Nat) (k : Nat) (acc : List Char) : List Char :=
@@ -75,13 +77,6 @@ structure PriorD where
   hi : Float
   mean : Float
   sigma : Float
-  deriving Inhabited
-
-/-- assertion expression as extracted from the real assertion objects -/
-inductive AsrtJ where
-  | cmp (strict : Bool) (lower greater : Node Float)
-  | and (x y : AsrtJ)
-  | lit (b : Bool)
   deriving Inhabited
 
 structure Parsed where
@@ -156,7 +151,7 @@ def parseNode (j : Json) : Except String Parsed := do
   pure { node := n, priors := ps.reverse }
 
 /-- assertions attached to every node, in walk order: list of (path, assertion) -/
-partial def parseAsrt (j : Json) : Except String AsrtJ := do
+partial def parseAsrt (j : Json) : Except String (Asrt Float) := do
   let a ← getStr j "a"
   match a with
   | "lt" | "le" =>
